@@ -189,7 +189,8 @@ class SubProg:
 class RespSpec:
     def __init__(self, uid, ty, remote, purpose, dirflag, phys, rng):
         self.uid, self.ty, self.remote, self.purpose, self.dir, self.phys = uid, ty, remote, purpose, dirflag, phys
-        self.seq = rng.randrange(0, 50)
+        # sequence numbers: small, or around the 16- / 32-bit wrap-around of a link layer's counter
+        self.seq = rng.choice([0, 65535, 65536, 2 ** 31 - 1]) if rng.random() < 0.2 else rng.randrange(0, 50)
         self.goodness = rng.randrange(0, 1000)
         self.gtime = rng.randrange(0, 1000)
         self.bell = rng.randrange(4)
@@ -820,6 +821,7 @@ class Oracle:
                     self.consumed[u] = (oid, k0 + j)
                     r = resp_by_uid[u]
                     if r.ty == "K":
+                        v = None
                         try:
                             v = ex._app_arrays[app]._arrays[obj.q_array_address][k0 + j]
                             um = ex._qubit_unit_modules[app]
@@ -831,7 +833,8 @@ class Oracle:
                             self.bad("(iii) k-th virtual qubit not mapped to the response's qubit", key=key,
                                      k=k0 + j, mapped=mapped, phys=r.phys)
                         # (v) it was free before
-                        if before["units"].get(app, [None] * 99)[v] is not None:
+                        ub = before["units"].get(app, [])
+                        if isinstance(v, int) and 0 <= v < len(ub) and ub[v] is not None:
                             self.bad("(v) keep response consumed while its virtual qubit was allocated",
                                      key=key, v=v)
                 self.req_count[oid] += n
@@ -2009,3 +2012,126 @@ def compare_with_ctl(out, rp):
         if raised:
             return None
     return None
+
+
+# ---------------------------------------------------------------------- C11: every optional argument of every entry point
+# The argument vocabulary is enumerated from the SIGNATURES of the EPRSocket entry points (inspect), so a
+# new parameter is noticed; every optional argument is exercised for every request type.
+
+import inspect  # noqa: E402
+
+CREATE_ENTRY = {"create_keep": "K", "create_keep_with_info": "K", "create_measure": "M", "create_rsp": "R"}
+RECV_ENTRY = {"recv_keep": "K", "recv_keep_with_info": "K", "recv_measure": "M", "recv_rsp": "R",
+              "recv_rsp_with_info": "R"}
+KNOWN_ARGS = {"number", "post_routine", "sequential", "time_unit", "max_time", "min_fidelity_all_at_end",
+              "max_tries", "basis_local", "basis_remote", "rotations_local", "rotations_remote",
+              "random_basis_local", "random_basis_remote", "expect_phi_plus"}
+
+
+def entry_params(name):
+    return [p for p in inspect.signature(getattr(EPRSocket, name)).parameters if p != "self"]
+
+
+def unknown_entry_args():
+    """parameters of the entry points that the request vocabulary of this harness does not know"""
+    return sorted({(n, p) for n in list(CREATE_ENTRY) + list(RECV_ENTRY) for p in entry_params(n)
+                   if p not in KNOWN_ARGS})
+
+
+def gen_api_case(rng):
+    name = rng.choice(list(CREATE_ENTRY) * 2 + list(RECV_ENTRY))
+    params = entry_params(name)
+    a = {"number": rng.randint(1, 2)}
+    for p in params:
+        if p == "number" or rng.random() < 0.45:
+            continue
+        if p == "sequential":
+            a[p] = True
+        elif p == "time_unit":
+            a[p] = rng.randrange(3)
+        elif p == "max_time":
+            a[p] = rng.choice([0, 3, 40])
+        elif p == "min_fidelity_all_at_end":
+            a[p] = rng.choice([70, 90])
+        elif p in ("basis_local", "basis_remote"):
+            a[p] = rng.randrange(6)
+        elif p in ("rotations_local", "rotations_remote"):
+            a[p] = [rng.randrange(32) for _ in range(3)]
+        elif p in ("random_basis_local", "random_basis_remote"):
+            a[p] = rng.randrange(4)
+        elif p == "expect_phi_plus":
+            a[p] = rng.random() < 0.5
+    if "sequential" in a:
+        if "post_routine" in params:
+            a["post_routine"] = True
+        else:
+            del a["sequential"]
+    if "min_fidelity_all_at_end" in a:
+        if "max_tries" in params:
+            a["max_tries"] = rng.randint(1, 3)
+        else:
+            del a["min_fidelity_all_at_end"]      # (the *_with_info forms take no max_tries: the builder asserts)
+    return {"entry": name, "args": a, "socket": rng.randrange(3), "rseed": rng.randrange(1 << 30)}
+
+
+def api_expected(ac):
+    """the parameter record of the Lean model for a create entry-point call"""
+    a = ac["args"]
+    tp = CREATE_ENTRY[ac["entry"]]
+    rotL = list(BASIS_ROT[a["basis_local"]]) if a.get("basis_local") is not None else list(a.get("rotations_local", [0, 0, 0]))
+    rotR = list(BASIS_ROT[a["basis_remote"]]) if a.get("basis_remote") is not None else list(a.get("rotations_remote", [0, 0, 0]))
+    return {"tp": {"K": 0, "M": 1, "R": 2}[tp], "remote": 1, "purpose": purpose_of(1, ac["socket"]),
+            "number": a["number"], "timeUnit": a.get("time_unit", 0), "maxTime": a.get("max_time", 0),
+            "rbl": a.get("random_basis_local"), "rbr": a.get("random_basis_remote"), "rotL": rotL, "rotR": rotR}
+
+
+def run_api_case(ac):
+    import random as _random
+    rrng = _random.Random(ac["rseed"])
+    ex = fresh_world()
+    a = ac["args"]
+    creating = ac["entry"] in CREATE_ENTRY
+    tp = (CREATE_ENTRY if creating else RECV_ENTRY)[ac["entry"]]
+    keep = tp == "K" or (tp == "R" and not creating)
+    made = [0]
+
+    def responder(ex_):
+        # the link layer answers every request it saw (a retry loop may put several), pair by pair
+        k = made[0]
+        if creating and k >= a["number"] * max(1, len(ex_.network_stack.requests)):
+            return False
+        if not creating and k >= a["number"] * 3:
+            return False
+        r = RespSpec(k, "K" if keep else "M", 1, purpose_of(1, ac["socket"]), 0 if creating else 1, 80 + k, rrng)
+        r.goodness = 0       # generation duration 0: a min-fidelity loop is satisfied at once
+        r.seq = k
+        made[0] += 1
+        ex_._handle_epr_response(r.real())
+        return True
+
+    sock = EPRSocket(REMOTE_NAME, epr_socket_id=ac["socket"], remote_epr_socket_id=ac["socket"])
+    conn = InProcConnection(ex, responder, epr_sockets=[sock], max_qubits=6)
+    kw = {}
+    for k, v in a.items():
+        if k == "time_unit":
+            kw[k] = TimeUnit(v)
+        elif k in ("basis_local", "basis_remote"):
+            kw[k] = BE.EprMeasBasis(v)
+        elif k in ("rotations_local", "rotations_remote"):
+            kw[k] = tuple(v)
+        elif k in ("random_basis_local", "random_basis_remote"):
+            kw[k] = RandomBasis(v)
+        elif k == "post_routine":
+            kw[k] = (lambda conn_, q, pair: q.measure())
+        else:
+            kw[k] = v
+    out = {"raised": None, "stuck": False, "requests": []}
+    try:
+        getattr(sock, ac["entry"])(**kw)
+        conn.flush()
+    except Exception as e:
+        out["raised"] = "%s: %s" % (type(e).__name__, e)
+        return out
+    out["stuck"] = conn.stuck
+    out["requests"] = [canon_request(r) for r in ex.network_stack.requests]
+    return out
